@@ -83,19 +83,27 @@ impl Layout {
                 Conf::Defines => files.push(conf(vec![fx(self.rich, &tag, &[])])),
                 Conf::Overrides => files.push(conf(vec![fx(self.rich, &tag, &["fx"])])),
                 Conf::Star => {
-                    files.push(conf(vec![Item::StarImport {
-                        module: helper.clone(),
-                    }]));
+                    // the conftest also requests the name it imports (resolution from inside a conftest
+                    // through that conftest's own imports)
+                    files.push(conf(vec![
+                        Item::StarImport {
+                            module: helper.clone(),
+                        },
+                        Item::fixture(&format!("cu{}", k), &["fx"]),
+                    ]));
                     files.push(FileSpec::new(
                         &format!("{}{}.py", dir, helper),
                         vec![fx(self.rich, &format!("hs{}", k), &[])],
                     ));
                 }
                 Conf::Explicit => {
-                    files.push(conf(vec![Item::ExplicitImport {
-                        module: helper.clone(),
-                        names: vec!["fx".into()],
-                    }]));
+                    files.push(conf(vec![
+                        Item::ExplicitImport {
+                            module: helper.clone(),
+                            names: vec!["fx".into()],
+                        },
+                        Item::fixture(&format!("cu{}", k), &["fx"]),
+                    ]));
                     files.push(FileSpec::new(
                         &format!("{}{}.py", dir, helper),
                         vec![fx(self.rich, &format!("he{}", k), &[])],
@@ -112,9 +120,12 @@ impl Layout {
                     ));
                 }
                 Conf::Plugins => {
-                    files.push(conf(vec![Item::PytestPlugins {
-                        modules: vec![helper.clone()],
-                    }]));
+                    files.push(conf(vec![
+                        Item::PytestPlugins {
+                            modules: vec![helper.clone()],
+                        },
+                        Item::fixture(&format!("cu{}", k), &["fx"]),
+                    ]));
                     files.push(FileSpec::new(
                         &format!("{}{}.py", dir, helper),
                         vec![fx(self.rich, &format!("hp{}", k), &[])],
